@@ -127,7 +127,37 @@ class Recorder:
                                'first_answer': repr(first)[:600], 'answer_when_asked_again_in_reverse_order': repr(second)[:600]},
                               '%s%s answered %s the first time and %s when the same questions were asked again in reverse order' % (
                                   name, repr(a)[:200], repr(first)[:160], repr(second)[:160]))
-        ctx.cov['evaluations'] += n
-        ctx.stage('order-independence-' + label, calls_recorded=len(self.calls), calls_seen=self.seen, replayed=n, asked_twice_in_a_row=self.asked_twice, differing=bad)
+        # ... and once more from four threads at once (a sample): an answer does not depend on who else is asking
+        import sys
+        import threading
+        sample = self.calls[::max(1, len(self.calls) // 3000)][:3000]
+        conc = []
+        if sample:
+            old_si = sys.getswitchinterval()
+            sys.setswitchinterval(1e-5)
+            lock = threading.Lock()
+
+            def worker(k):
+                seq = sample[k::2] if k < 2 else sample[::-1][k - 2::2]
+                for name, fn, a, kw, first in seq:
+                    second = _outcome(fn, _snap(a), {x: _snap(v) for x, v in kw.items()})
+                    if not _same(first, second):
+                        with lock:
+                            conc.append((name, a, kw, first, second))
+            try:
+                ths = [threading.Thread(target=worker, args=(k,)) for k in range(4)]
+                [t.start() for t in ths]
+                [t.join() for t in ths]
+            finally:
+                sys.setswitchinterval(old_si)
+            for name, a, kw, first, second in conc[:10]:
+                bad += 1
+                ctx.violation({'kind': 'answer-depends-on-concurrent-callers', 'fn': name, 'first': first[:2], 'second': second[:2]},
+                              {'function': name, 'args': repr(a)[:600], 'kwargs': repr(kw)[:300],
+                               'answer_alone': repr(first)[:600], 'answer_with_three_other_threads_calling': repr(second)[:600]},
+                              '%s%s answered %s alone and %s while three other threads were calling the same helpers' % (
+                                  name, repr(a)[:200], repr(first)[:160], repr(second)[:160]))
+        ctx.cov['evaluations'] += n + 2 * len(sample)
+        ctx.stage('order-independence-' + label, calls_recorded=len(self.calls), calls_seen=self.seen, replayed=n, asked_twice_in_a_row=self.asked_twice, asked_from_four_threads=2 * len(sample), differing=bad)
         self.calls = []
         return bad
